@@ -101,14 +101,15 @@ def state_tables(res):
     dptr = {r["name"]: r for r in xmacro.pointers("MJDATA_POINTERS")}
     dfields = {f["name"]: f for f in ctypeinfo.fields("mjData_")}
     special = {}
+    from .. import norm
     for fname in ("mj_getState", "mj_setState", "mj_copyState"):
         sp = set()
-        for n in cir.walk(u.funcs[fname]):
+        for n in cir.walk(norm.canon(u, fname, exclude=STATE_PRIMS)):
             if n.get("k") == "IfStmt":
-                t = cir.text(cir.kids(n)[0])
-                m = re.fullmatch(r"\w+ == (mjSTATE_\w+)", t)
-                if m:
-                    sp.add(m.group(1))
+                for c_, _pol in norm.split_cond(norm._if_parts(n)[1], True):
+                    m = re.fullmatch(r"\w+ == (mjSTATE_\w+)", cir.text(c_))
+                    if m:
+                        sp.add(m.group(1))
         special[fname] = sp
     elem_size = {}
     for name, v in elems:
@@ -157,197 +158,412 @@ def state_tables(res):
             res.bad("R-TABLE-STATE", f"{name}:extra", FILE, 0, f"case {name} is not a single-bit state element")
 
     # S3/S4/S5 loop shape and cursor discipline
-    r2 = res.rule("R-STATE-LOOP", "state loops iterate every bit ascending, guarded by element&sig; cursor advances by the "
-                  "element size; copy directions of get/set are opposite", floor=5)
+    _state_loops(res, u, elem_size, dptr)
+
+
+STATE_PRIMS = ("mj_stateElemSize", "mj_stateElemPtr", "mj_stateElemConstPtr")
+_LOOPK = ("ForStmt", "WhileStmt", "DoStmt")
+
+
+def _init_of(d):
+    c = [y for y in cir.kids(d) if y is not None and not y.get("k", "").endswith("Attr")]
+    return c[-1] if (c and d.get("init")) else None
+
+
+def _is_inc(n, vid):
+    """n increments the variable with decl id vid by one"""
+    k = n.get("k")
+    if k == "UnaryOperator" and n.get("op") == "++":
+        t = cir.strip(cir.kids(n)[0])
+        return t is not None and t.get("k") == "DeclRefExpr" and (t.get("ref") or {}).get("id") == vid
+    if k == "CompoundAssignOperator" and n.get("op") == "+=":
+        t = cir.strip(cir.kids(n)[0])
+        return t is not None and t.get("k") == "DeclRefExpr" and (t.get("ref") or {}).get("id") == vid and cir.text(cir.kids(n)[1]) == "1"
+    return False
+
+
+def _mods(n, vid):
+    from .. import norm
+    return [x for x in cir.walk(n) if ((x.get("k") == "BinaryOperator" and x.get("op") == "=") or x.get("k") == "CompoundAssignOperator" or
+                                       (x.get("k") == "UnaryOperator" and x.get("op") in ("++", "--", "&")))
+            and (cir.strip(cir.kids(x)[0]) or {}).get("k") == "DeclRefExpr" and (cir.strip(cir.kids(x)[0]).get("ref") or {}).get("id") == vid]
+
+
+def counted_loop(root, lp, vid):
+    """Describe `lp` as a loop counting the variable vid upward by one: {'start': text, 'bound': text, 'problems': [...]}.
+    for (v = s; v < B; v++) / v = s; while (v < B) { ...; v++; ... } with a single increment per iteration."""
+    k = lp.get("k")
+    c = list(cir.kids(lp))
+    problems = []
+    start = bound = None
+    if k == "ForStmt":
+        c += [None] * 5
+        init, cond, inc, body = c[0], c[2], c[3], c[4]
+    elif k == "WhileStmt":
+        init, cond, inc, body = None, c[0], None, c[-1]
+    else:
+        return {"start": None, "bound": None, "problems": ["loop kind " + k]}
+    cn = cir.strip(cond) if cond is not None else None
+    if cn is not None and cn.get("k") == "BinaryOperator" and cn.get("op") in ("<", "!=") and \
+            (cir.strip(cir.kids(cn)[0]).get("ref") or {}).get("id") == vid:
+        bound = cir.text(cir.kids(cn)[1])
+    elif cn is not None and cn.get("k") == "BinaryOperator" and cn.get("op") == ">" and \
+            (cir.strip(cir.kids(cn)[1]).get("ref") or {}).get("id") == vid:
+        bound = cir.text(cir.kids(cn)[0])
+    else:
+        problems.append(f"loop condition `{cir.text(cond)}` is not an upper bound on the counter")
+    # start value: the for-init, or the nearest definition before the loop
+    defs = []
+    for x in cir.walk(root):
+        if x is lp:
+            break
+        if x.get("k") == "VarDecl" and x.get("id") == vid and _init_of(x) is not None:
+            defs.append(cir.text(_init_of(x)))
+        elif x.get("k") == "BinaryOperator" and x.get("op") == "=" and (cir.strip(cir.kids(x)[0]).get("ref") or {}).get("id") == vid:
+            defs.append(cir.text(cir.kids(x)[1]))
+        elif x.get("k") in ("CompoundAssignOperator", "UnaryOperator") and x in _mods(x, vid):
+            defs.append("?")
+    if init is not None:
+        for x in cir.walk(init):
+            if x.get("k") == "VarDecl" and x.get("id") == vid and _init_of(x) is not None:
+                defs.append(cir.text(_init_of(x)))
+            elif x.get("k") == "BinaryOperator" and x.get("op") == "=" and (cir.strip(cir.kids(x)[0]).get("ref") or {}).get("id") == vid:
+                defs.append(cir.text(cir.kids(x)[1]))
+    start = defs[-1] if defs else None
+    mods = _mods(body, vid) + (_mods(inc, vid) if inc is not None else [])
+    if len(mods) != 1 or not _is_inc(mods[0], vid):
+        problems.append(f"the counter is not advanced by exactly one increment per iteration ({[cir.text(m_) for m_ in mods]})")
+    elif inc is None or not _mods(inc, vid):
+        # increment inside the body: it must run on every iteration, i.e. carry no guard inside the body
+        from .. import norm
+        g = norm.guards(body, mods[0])
+        if g:
+            problems.append("the counter increment is conditional")
+    return {"start": start, "bound": bound, "problems": problems, "body": body, "inc_node": mods[0] if mods else None}
+
+
+def _state_loops(res, u, elem_size, dptr):
+    """Each of the five state API loops, on the canonical view (helpers inlined, early exits and `continue` guards nested): the
+    element loop runs over every bit ascending; everything it does is guarded by element & sig; per element, exactly its size
+    moves between the state vector at the cursor and the element's field, in the direction of the function, and the cursor
+    advances by that size."""
+    from .. import norm, linform as _lf
+    res.rule("R-STATE-LOOP", "state loops iterate every bit ascending, guarded by element&sig; cursor advances by the "
+             "element size; copy directions of get/set are opposite", floor=5)
     for fname in ("mj_stateSize", "mj_getState", "mj_setState", "mj_copyState", "mj_extractState"):
-        fn = u.funcs[fname]
-        loops = [n for n in cir.kids(cir.body(fn)) if n is not None and n.get("k") == "ForStmt"]
+        fn = norm.canon(u, fname, exclude=STATE_PRIMS)
+        body = cir.body(fn)
         problems = []
-        if len(loops) != 1:
-            problems.append(f"expected exactly one top-level loop, found {len(loops)}")
-        else:
-            lp = loops[0]
-            c = list(cir.kids(lp)) + [None] * 5
-            init, cond, inc, body = c[0], c[2], c[3], c[4]
-            it = cir.text(cir.kids(init)[0]) if init is not None and cir.kids(init) else ""
-            ivar = cir.kids(init)[0].get("n") if init is not None and cir.kids(init) and cir.kids(init)[0].get("k") == "VarDecl" else None
-            iinit = cir.text([x for x in cir.kids(cir.kids(init)[0]) if x][-1]) if ivar else None
-            if ivar is None or iinit != "0":
-                problems.append("loop does not start at bit 0")
-            if cir.text(cond) != f"{ivar} < mjNSTATE":
-                problems.append(f"loop bound is `{cir.text(cond)}`, not `{ivar} < mjNSTATE`")
-            if cir.text(inc) not in (f"{ivar}++", f"++{ivar}", f"{ivar} += 1"):
-                problems.append(f"loop step is `{cir.text(inc)}`")
-            # element = 1 << i   (names are discovered, not assumed)
-            el = [x for x in cir.walk(body) if x.get("k") == "VarDecl" and x.get("init")
-                  and cir.text([y for y in cir.kids(x) if y][-1]) == f"1 << {ivar}"]
-            if not el:
-                problems.append("no variable holding the element bit 1<<i")
-            E = el[0].get("n") if el else "element"
-            sigs = [p.get("n") for p in cir.params(fn) if (p.get("t") or "") == "int" and fname != "mj_setKeyframe"]
-            guards = [cir.text(cir.kids(x)[0]) for x in cir.walk(body) if x.get("k") == "IfStmt"]
-            for s in sigs:
-                if f"{E} & {s}" not in guards and f"{s} & {E}" not in guards:
-                    problems.append(f"no `{E} & {s}` guard")
-            szv = [x.get("n") for x in cir.walk(body) if x.get("k") == "VarDecl" and x.get("init")
-                   and cir.is_call(cir.strip([y for y in cir.kids(x) if y][-1]))
-                   and cir.callee(cir.strip([y for y in cir.kids(x) if y][-1])) == "mj_stateElemSize"]
-            SZ = szv[0] if szv else None
-            ptrv = {x.get("n"): cir.strip([y for y in cir.kids(x) if y][-1]) for x in cir.walk(body)
-                    if x.get("k") == "VarDecl" and x.get("init") and cir.is_call(cir.strip([y for y in cir.kids(x) if y][-1]))
-                    and cir.callee(cir.strip([y for y in cir.kids(x) if y][-1])) in ("mj_stateElemPtr", "mj_stateElemConstPtr")}
-            numptr = [p.get("n") for p in cir.params(fn) if "mjtNum *" in (p.get("t") or "")]
-            # cursor discipline
-            if fname in ("mj_getState", "mj_setState"):
-                ST = numptr[0] if len(numptr) == 1 else None
-                if ST is None or SZ is None or len(ptrv) != 1:
-                    problems.append("cannot identify the state vector parameter / element size / element pointer")
-                    ST, PV = ST or "?", "?"
-                else:
-                    PV = next(iter(ptrv))
-                adv = [cir.text(x) for x in cir.walk(body) if x.get("k") == "CompoundAssignOperator"]
-                cps = [x for x in cir.calls(body, "mju_copy")]
-                CUR = None
-                if len(cps) != 1:
-                    problems.append("expected one mju_copy in the regular branch")
-                else:
-                    a = [cir.text(y) for y in cir.args(cps[0])]
-                    st_arg = 0 if fname == "mj_getState" else 1
-                    mm = re.fullmatch(re.escape(ST) + r" \+ (\w+)", a[st_arg])
-                    CUR = mm.group(1) if mm else None
-                    if CUR is None or a[2] != SZ or a[1 - st_arg] != PV:
-                        problems.append(f"mju_copy({', '.join(a)}) does not copy the element size between the element pointer and "
-                                        f"state+cursor in the {'get' if fname == 'mj_getState' else 'set'} direction")
-                    elif f"{CUR} += {SZ}" not in adv:
-                        problems.append(f"regular branch does not advance the cursor {CUR} by the element size")
-                # special branches: inner loop bound equals that element's size, one adr++ per item
-                for x in cir.walk(body):
-                    if x.get("k") == "IfStmt":
-                        m = re.fullmatch(re.escape(E) + r" == (mjSTATE_\w+)", cir.text(cir.kids(x)[0]))
-                        if not m:
-                            continue
-                        then = cir.kids(x)[1]
-                        inner = [y for y in cir.walk(then) if y.get("k") == "ForStmt"]
-                        decl = {y.get("n"): cir.text([z for z in cir.kids(y) if z][-1]) for y in cir.walk(then)
-                                if y.get("k") == "VarDecl" and y.get("init")}
-                        okk = False
-                        if len(inner) == 1:
-                            ic = list(cir.kids(inner[0])) + [None] * 5
-                            bound = cir.text(ic[2])
-                            mm = re.fullmatch(r"(\w+) < (\w+(?:->\w+)?)", bound)
-                            if mm:
-                                lim = decl.get(mm.group(2), mm.group(2))
-                                incs = [cir.text(z) for z in cir.walk(ic[4]) if z.get("k") == "UnaryOperator" and z.get("op") == "++"]
-                                assigns = [z for z in cir.walk(ic[4]) if z.get("k") == "BinaryOperator" and z.get("op") == "="]
-                                dirok = False
-                                if len(assigns) == 1:
-                                    l, r = (cir.text(q) for q in cir.kids(assigns[0]))
-                                    dpar = [p.get("n") for p in cir.params(fn) if "mjData" in (p.get("t") or "")]
-                                    D = dpar[0] if dpar else "d"
-                                    if fname == "mj_getState":
-                                        dirok = l.startswith(ST + "[") and r.startswith(D + "->")
-                                    else:
-                                        dirok = l.startswith(D + "->") and r.startswith(ST + "[")
-                                okk = lim == elem_size.get(m.group(1)) and incs == [f"{CUR}++"] and dirok
-                        if not okk:
-                            problems.append(f"special branch for {m.group(1)} does not move exactly its size through the cursor in "
-                                            f"the right direction")
-            if fname == "mj_copyState":
-                cps = [x for x in cir.calls(body, "mju_copy")]
-                dpar = [p for p in cir.params(fn) if "mjData" in (p.get("t") or "")]
-                srcd = [p.get("n") for p in dpar if "const" in (p.get("t") or "")]
-                dstd = [p.get("n") for p in dpar if "const" not in (p.get("t") or "")]
-                if len(cps) != 1 or len(srcd) != 1 or len(dstd) != 1:
-                    problems.append("regular branch is not a single mju_copy between a const source and a mutable destination")
-                else:
-                    a = [cir.text(y) for y in cir.args(cps[0])]
-                    frm = {v: cir.text(cir.args(c)[1]) for v, c in ptrv.items()}
-                    if not (frm.get(a[0]) == dstd[0] and frm.get(a[1]) == srcd[0] and a[2] == SZ):
-                        problems.append(f"mju_copy({', '.join(a)}) does not copy the element size from the source data's element to "
-                                        f"the destination data's element")
-            if fname == "mj_copyState" and len(srcd) == 1 and len(dstd) == 1:
-                # special branches: exactly `size` elements of the field's own element type move from src to dst
-                for x in cir.walk(body):
-                    if x.get("k") != "IfStmt":
+        # the element loop: the loop whose body declares  E = 1 << counter
+        cands = []
+        for lp in cir.walk(body):
+            if lp.get("k") in _LOOPK:
+                lb = cir.kids(lp)[0] if lp.get("k") == "DoStmt" else cir.kids(lp)[-1]
+                for x in cir.walk(lb):
+                    if x.get("k") == "VarDecl" and _init_of(x) is not None:
+                        e = cir.strip(_init_of(x))
+                        if e is not None and e.get("k") == "BinaryOperator" and e.get("op") == "<<" and cir.text(cir.kids(e)[0]) == "1" \
+                                and cir.strip(cir.kids(e)[1]).get("k") == "DeclRefExpr":
+                            cands.append((lp, x, cir.strip(cir.kids(e)[1])["ref"]["id"]))
+        if len(cands) != 1:
+            raise AnalysisError(f"{fname}: element loop (a loop declaring `element = 1 << i`) not identified ({len(cands)} candidates)")
+        lp, edecl, ivid = cands[0]
+        E = edecl.get("n")
+        cl = counted_loop(body, lp, ivid)
+        problems += cl["problems"]
+        if cl["start"] != "0":
+            problems.append(f"loop does not start at bit 0 (start `{cl['start']}`)")
+        if cl["bound"] != "mjNSTATE":
+            problems.append(f"loop bound is `{cl['bound']}`, not mjNSTATE")
+        lbody = cl.get("body") or cir.kids(lp)[-1]
+        # the element bit must be taken before the counter moves (while-form)
+        order = {id(x): i for i, x in enumerate(cir.walk(lbody))}
+        if cl.get("inc_node") is not None and id(cl["inc_node"]) in order and order[id(cl["inc_node"])] < order.get(id(edecl), -1):
+            problems.append("the counter is incremented before the element bit is formed")
+        G = lambda n: [(cir.text(c_), p_) for c_, p_ in (norm.guards(lbody, n) or [])]
+        sigs = [p_.get("n") for p_ in cir.params(fn) if (p_.get("t") or "") == "int"]
+        defs = _lf.single_defs(fn)
+
+        def resolve(t):
+            return cir.text(defs[t]) if t in defs else t
+
+        def has_sig(gs, s_, pol=True):
+            return (f"{E} & {s_}", pol) in gs or (f"{s_} & {E}", pol) in gs
+
+        def elem_atoms(gs):
+            out = []
+            for t, pol in gs:
+                m_ = re.fullmatch(re.escape(E) + r" == (mjSTATE_\w+)", t) or re.fullmatch(r"(mjSTATE_\w+) == " + re.escape(E), t)
+                if m_:
+                    out.append((m_.group(1), pol))
+            return out
+        # effects of the loop body: calls (except the element primitives), stores through pointers, cursor updates
+        local_ids = {x.get("id") for x in cir.walk(fn) if x.get("k") == "VarDecl"}
+        effects = []
+        for x in cir.walk(lbody):
+            k_ = x.get("k")
+            if cir.is_call(x) and cir.callee(x) not in STATE_PRIMS:
+                effects.append(x)
+            elif (k_ == "BinaryOperator" and x.get("op") == "=") or k_ == "CompoundAssignOperator" or \
+                    (k_ == "UnaryOperator" and x.get("op") in ("++", "--")):
+                t = cir.strip(cir.kids(x)[0])
+                if t is not None and t.get("k") == "DeclRefExpr" and (t.get("ref") or {}).get("id") == ivid:
+                    continue
+                effects.append(x)
+        for s_ in sigs[:1] if fname != "mj_extractState" else sigs[:0]:
+            for x in effects:
+                if not has_sig(G(x), s_):
+                    problems.append(f"`{cir.text(x)[:60]}` is not guarded by `{E} & {s_}`")
+                    break
+        specials = sorted({a_ for x in cir.walk(lbody) for a_, _p in elem_atoms(G(x))})
+
+        def on_path(n, path):
+            """path None = regular element, 'mjSTATE_X' = that special element"""
+            for a_, pol in elem_atoms(G(n)):
+                if path is None and pol:
+                    return False
+                if path is not None and ((a_ == path and not pol) or (a_ != path and pol)):
+                    return False
+            return True
+
+        def decl_call(path, names):
+            out = {}
+            for x in cir.walk(lbody):
+                if x.get("k") == "VarDecl" and _init_of(x) is not None and on_path(x, path):
+                    c_ = cir.strip(_init_of(x))
+                    if cir.is_call(c_) and cir.callee(c_) in names:
+                        out[x.get("n")] = c_
+            return out
+
+        def walk_path(path):
+            """(ops, cursor deltas) along one path through the body.  ops: ('copy', dst, src, n, deltas-at-that-point) /
+            ('loop', lhs, rhs, N, j, deltas-at-that-point, cursor_incremented_in_index)"""
+            ops = []
+            delta = {}
+            skip = set()
+            for x in cir.walk(lbody):
+                if id(x) in skip or not on_path(x, path):
+                    continue
+                k_ = x.get("k")
+                if k_ in _LOOPK:
+                    for y in cir.walk(x):
+                        skip.add(id(y))
+                    skip.discard(id(x))
+                    jdecl = [y for y in cir.walk(x) if y.get("k") == "VarDecl" and _init_of(y) is not None and cir.text(_init_of(y)) == "0"]
+                    asg = [y for y in cir.walk(cir.kids(x)[-1]) if y.get("k") == "BinaryOperator" and y.get("op") == "="]
+                    if len(jdecl) != 1 or len(asg) != 1:
+                        ops.append(("unknown", cir.text(x)[:60]))
                         continue
-                    m = re.fullmatch(re.escape(E) + r" == (mjSTATE_\w+)", cir.text(cir.kids(x)[0]))
-                    if not m:
+                    jl = counted_loop(lbody, x, jdecl[0].get("id"))
+                    if jl["problems"] or jl["start"] != "0":
+                        ops.append(("unknown", "inner loop: " + "; ".join(jl["problems"])))
                         continue
-                    then = cir.kids(x)[1]
-                    decl = {y.get("n"): cir.text([z for z in cir.kids(y) if z][-1]) for y in cir.walk(then)
-                            if y.get("k") == "VarDecl" and y.get("init")}
-                    want_n = elem_size.get(m.group(1))
-                    okk = False
-                    why = "no element copy found"
-                    inner = [y for y in cir.walk(then) if y.get("k") == "ForStmt"]
-                    if len(inner) == 1:
-                        ic = list(cir.kids(inner[0])) + [None] * 5
-                        mm = re.fullmatch(r"(\w+) < (\w+(?:->\w+)?)", cir.text(ic[2]))
-                        asg = [z for z in cir.walk(ic[4]) if z.get("k") == "BinaryOperator" and z.get("op") == "="]
-                        if mm and len(asg) == 1:
-                            lim = decl.get(mm.group(2), mm.group(2))
-                            if lim == SZ:
-                                lim = want_n
-                            l, r_ = (cir.text(q) for q in cir.kids(asg[0]))
-                            j = mm.group(1)
-                            fl = re.fullmatch(re.escape(dstd[0]) + r"->(\w+)\[" + j + r"\]", l)
-                            fr = re.fullmatch(re.escape(srcd[0]) + r"->(\w+)\[" + j + r"\]", r_)
-                            okk = bool(fl and fr and fl.group(1) == fr.group(1) and lim == want_n)
-                            why = f"loop copies `{l} = {r_}` for {cir.text(ic[2])}"
+                    lhs, rhs = cir.kids(asg[0])
+                    incs = [cir.text(cir.kids(z)[0]) for z in cir.walk(asg[0]) if z.get("k") == "UnaryOperator" and z.get("op") == "++"
+                            and cir.text(cir.kids(z)[0]) != jdecl[0].get("n")]
+                    ops.append(("loop", lhs, rhs, resolve(jl["bound"]), jdecl[0].get("n"), dict(delta), incs))
+                    for v in incs:
+                        delta[v] = delta.get(v, []) + [resolve(jl["bound"])]
+                    continue
+                if cir.is_call(x) and cir.callee(x) in ("mju_copy", "memcpy", "memmove", "mju_copyInt"):
+                    a_ = cir.args(x)
+                    ops.append(("copy", a_[0], a_[1], cir.text(a_[2]), dict(delta), cir.callee(x)))
+                elif k_ == "CompoundAssignOperator" and x.get("op") == "+=":
+                    t = cir.strip(cir.kids(x)[0])
+                    if t is not None and t.get("k") == "DeclRefExpr" and (t.get("ref") or {}).get("id") != ivid:
+                        delta[cir.text(t)] = delta.get(cir.text(t), []) + [resolve(cir.text(cir.kids(x)[1]))]
+                elif k_ == "UnaryOperator" and x.get("op") in ("++", "--"):
+                    t = cir.strip(cir.kids(x)[0])
+                    if t is not None and t.get("k") == "DeclRefExpr" and (t.get("ref") or {}).get("id") != ivid:
+                        delta[cir.text(t)] = delta.get(cir.text(t), []) + ["1" if x.get("op") == "++" else "-1"]
+                elif k_ == "BinaryOperator" and x.get("op") == "=":
+                    t = cir.strip(cir.kids(x)[0])
+                    if t is not None and t.get("k") == "DeclRefExpr" and (t.get("ref") or {}).get("id") in local_ids and \
+                            (t.get("ref") or {}).get("id") != ivid:
+                        f_ = _lf.linform(cir.kids(x)[1], {})
+                        nm = cir.text(t)
+                        if f_.get(nm) == 1 and len(f_) == 2:
+                            other = [(a2, c2) for a2, c2 in f_.items() if a2 != nm][0]
+                            delta[nm] = delta.get(nm, []) + [resolve(other[0]) if other[1] == 1 else f"{other[1]}*{other[0]}"]
+                        else:
+                            delta[nm] = delta.get(nm, []) + ["?"]
+                    elif t is not None and t.get("k") != "DeclRefExpr":
+                        ops.append(("store", cir.kids(x)[0], cir.kids(x)[1], dict(delta)))
+            return ops, delta
+
+        numptr = [p_.get("n") for p_ in cir.params(fn) if "mjtNum *" in (p_.get("t") or "")]
+        dpar = [p_ for p_ in cir.params(fn) if "mjData" in (p_.get("t") or "")]
+        if fname in ("mj_getState", "mj_setState"):
+            get = fname == "mj_getState"
+            ST = numptr[0] if len(numptr) == 1 else None
+            D = dpar[0].get("n") if len(dpar) == 1 else None
+            if ST is None or D is None:
+                raise AnalysisError(f"{fname}: state vector / data parameters not identified")
+            for path in [None] + specials:
+                label = path or "regular elements"
+                ops, delta = walk_path(path)
+                szv = decl_call(path, ("mj_stateElemSize",))
+                szv = {n_: c_ for n_, c_ in szv.items() if cir.text(cir.args(c_)[1]) == E}
+                ptrv = {n_: c_ for n_, c_ in decl_call(path, ("mj_stateElemPtr", "mj_stateElemConstPtr")).items()
+                        if cir.text(cir.args(c_)[1]) == D and cir.text(cir.args(c_)[2]) == E}
+                sizes_ok = set(szv) | ({elem_size.get(path)} if path else set())
+                moved = [o for o in ops if o[0] in ("copy", "loop", "store", "unknown")]
+                if len(moved) != 1 or moved[0][0] in ("unknown", "store"):
+                    problems.append(f"{label}: expected exactly one transfer per element, found {[o[0] for o in moved]}")
+                    continue
+                o = moved[0]
+                cur = None
+                if o[0] == "copy":
+                    st_side, el_side = (o[1], o[2]) if get else (o[2], o[1])
+                    f_ = _lf.linform(st_side, {})
+                    if f_.get(ST) != 1 or len(f_) > 2 or any(c2 != 1 for c2 in f_.values()):
+                        problems.append(f"{label}: mju_copy does not address `{ST} + cursor` on the state side in the "
+                                        f"{'get' if get else 'set'} direction (`{cir.text(st_side)}`)")
+                        continue
+                    cur = next((a2 for a2 in f_ if a2 != ST), None)
+                    if cir.text(el_side) not in ptrv:
+                        problems.append(f"{label}: mju_copy does not move the element returned by mj_stateElemPtr(m, {D}, {E}) "
+                                        f"(`{cir.text(el_side)}`) in the {'get' if get else 'set'} direction")
+                    n_moved = o[3]
+                    at = o[4]
+                else:
+                    lhs, rhs, N, j = o[1], o[2], o[3], o[4]
+                    st_side, el_side = (lhs, rhs) if get else (rhs, lhs)
+                    s_ = cir.strip(st_side)
+                    e_ = cir.strip(el_side)
+                    okd = s_ is not None and s_.get("k") == "ArraySubscriptExpr" and cir.text(cir.kids(s_)[0]) == ST and \
+                        e_ is not None and e_.get("k") == "ArraySubscriptExpr" and cir.text(cir.kids(e_)[0]).startswith(D + "->") and \
+                        cir.text(cir.kids(e_)[1]) == j
+                    if not okd:
+                        problems.append(f"special branch for {label} does not move exactly its size through the cursor in the right "
+                                        f"direction (`{cir.text(lhs)} = {cir.text(rhs)}`)")
+                        continue
+                    idx = cir.strip(cir.kids(s_)[1])
+                    if idx.get("k") == "UnaryOperator" and idx.get("op") == "++" and idx.get("isPostfix"):
+                        cur = cir.text(cir.kids(idx)[0])
                     else:
-                        for c in cir.calls(then):
-                            if cir.callee(c) in ("memcpy", "memmove"):
-                                a = [cir.text(y) for y in cir.args(c)]
-                                fl = re.fullmatch(re.escape(dstd[0]) + r"->(\w+)", a[0])
-                                fr = re.fullmatch(re.escape(srcd[0]) + r"->(\w+)", a[1])
-                                if fl and fr and fl.group(1) == fr.group(1):
-                                    row = dptr.get(fl.group(1))
-                                    fs = sorted(t.strip() for t in a[2].replace("(", " ( ").split("*"))
-                                    n_ok = {f"sizeof({row['type']})" if row else "?", SZ} == {t.replace(" ( ", "(").replace(" )", ")").strip() for t in a[2].split("*")} \
-                                        or {f"sizeof({row['type']})" if row else "?", want_n} == {t.strip() for t in a[2].split("*")}
-                                    okk = bool(row) and n_ok
-                                    why = f"memcpy of `{a[2]}` bytes for a field of element type {row['type'] if row else '?'}"
+                        f_ = _lf.linform(idx, {})
+                        if f_.get(j) == 1 and len(f_) == 2 and all(c2 == 1 for c2 in f_.values()):
+                            cur = next(a2 for a2 in f_ if a2 != j)
+                        else:
+                            problems.append(f"special branch for {label}: state index `{cir.text(idx)}` is not cursor++ or cursor + {j}")
+                            continue
+                    n_moved = N
+                    at = o[5]
+                    # the field must be the element's own: its extent is the element size
+                    fld = cir.text(cir.kids(e_)[0]).split("->", 1)[1]
+                    row = dptr.get(fld)
+                    if row is None or sorted(x_ for x_ in (("m->" + row["nr"]) if not row["nr"].isdigit() else row["nr"], row["nc"]) if x_ != "1") \
+                            != _factors(elem_size.get(path, "?")):
+                        problems.append(f"special branch for {label} moves d->{fld}, whose extent is not the element size "
+                                        f"`{elem_size.get(path)}`")
+                if at.get(cur):
+                    problems.append(f"{label}: the cursor {cur} has already moved when the element is transferred")
+                if resolve(n_moved) not in {resolve(x_) for x_ in sizes_ok if x_} and n_moved not in sizes_ok:
+                    problems.append(f"special branch for {label} does not move exactly its size through the cursor in the right direction"
+                                    if path else f"{label}: mju_copy moves `{n_moved}` items, not the element size")
+                adv = delta.get(cur, [])
+                if len(adv) != 1 or (adv[0] not in sizes_ok and adv[0] not in {resolve(x_) for x_ in sizes_ok if x_}):
+                    problems.append(f"{label}: the cursor {cur} advances by {adv or 'nothing'} per element, not by the element size"
+                                    if path is None else
+                                    f"special branch for {label} does not move exactly its size through the cursor in the right "
+                                    f"direction (cursor advance {adv or 'none'})")
+        if fname == "mj_copyState":
+            srcd = [p_.get("n") for p_ in dpar if "const" in (p_.get("t") or "")]
+            dstd = [p_.get("n") for p_ in dpar if "const" not in (p_.get("t") or "")]
+            if len(srcd) != 1 or len(dstd) != 1:
+                raise AnalysisError("mj_copyState: source / destination data parameters not identified")
+            for path in [None] + specials:
+                label = path or "regular elements"
+                ops, _delta = walk_path(path)
+                szv = {n_: c_ for n_, c_ in decl_call(path, ("mj_stateElemSize",)).items() if cir.text(cir.args(c_)[1]) == E}
+                ptrs = decl_call(path, ("mj_stateElemPtr", "mj_stateElemConstPtr"))
+                frm = {n_: cir.text(cir.args(c_)[1]) for n_, c_ in ptrs.items() if cir.text(cir.args(c_)[2]) == E}
+                sizes_ok = set(szv) | ({elem_size.get(path)} if path else set())
+                moved = [o for o in ops if o[0] in ("copy", "loop", "store", "unknown")]
+                if len(moved) != 1 or moved[0][0] in ("unknown", "store"):
+                    problems.append(f"{label}: expected exactly one transfer per element, found {[o[0] for o in moved]}")
+                    continue
+                o = moved[0]
+                if o[0] == "copy" and o[5] == "mju_copy" and path is None:
+                    if not (frm.get(cir.text(o[1])) == dstd[0] and frm.get(cir.text(o[2])) == srcd[0] and o[3] in sizes_ok):
+                        problems.append(f"mju_copy({cir.text(o[1])}, {cir.text(o[2])}, {o[3]}) does not copy the element size from the "
+                                        f"source data's element to the destination data's element")
+                elif o[0] == "copy":
+                    fl = re.fullmatch(re.escape(dstd[0]) + r"->(\w+)", cir.text(o[1]))
+                    fr = re.fullmatch(re.escape(srcd[0]) + r"->(\w+)", cir.text(o[2]))
+                    row = dptr.get(fl.group(1)) if fl else None
+                    okk = False
+                    why = f"{o[5]} of `{o[3]}`"
+                    if fl and fr and fl.group(1) == fr.group(1) and row:
+                        fs = [t.strip() for t in o[3].replace("(", " ").replace(")", " ").split("*")]
+                        fs = [" ".join(t.split()) for t in fs]
+                        unit = "sizeof " + row["type"] if o[5] != "mju_copy" else None
+                        rest = [resolve(t) for t in fs if t != unit]
+                        okk = (unit is None or unit in fs) and len(rest) == 1 and (rest[0] in {resolve(x_) for x_ in sizes_ok if x_})
+                        if o[5] == "mju_copy" and row["type"] != "mjtNum":
+                            okk = False
+                        why = f"{o[5]} of `{o[3]}` for a field of element type {row['type']}"
                     if not okk:
-                        problems.append(f"special branch for {m.group(1)} does not copy exactly its size in elements of the field's type "
+                        problems.append(f"special branch for {label} does not copy exactly its size in elements of the field's type "
                                         f"from the source to the destination ({why})")
-            if fname == "mj_extractState":
-                adv = {}
-                for x in cir.walk(body):
-                    if x.get("k") == "IfStmt":
-                        g = cir.text(cir.kids(x)[0])
-                        for y in cir.kids(cir.kids(x)[1]) if cir.kids(x)[1].get("k") == "CompoundStmt" else [cir.kids(x)[1]]:
-                            if y is not None and y.get("k") == "CompoundAssignOperator":
-                                adv.setdefault(g, []).append(cir.text(y))
-                pp = cir.params(fn)
-                srcp = [p.get("n") for p in pp if (p.get("t") or "") == "const mjtNum *"]
-                dstp = [p.get("n") for p in pp if (p.get("t") or "") == "mjtNum *"]
-                sg = [p.get("n") for p in pp if (p.get("t") or "") == "int"]
-                okk = len(srcp) == 1 and len(dstp) == 1 and len(sg) == 2 and SZ is not None
+                else:
+                    lhs, rhs, N, j = o[1], o[2], o[3], o[4]
+                    fl = re.fullmatch(re.escape(dstd[0]) + r"->(\w+)\[" + re.escape(j) + r"\]", cir.text(lhs))
+                    fr = re.fullmatch(re.escape(srcd[0]) + r"->(\w+)\[" + re.escape(j) + r"\]", cir.text(rhs))
+                    okk = bool(fl and fr and fl.group(1) == fr.group(1) and
+                               (N in sizes_ok or resolve(N) in {resolve(x_) for x_ in sizes_ok if x_}))
+                    if okk and path:
+                        row = dptr.get(fl.group(1))
+                        okk = row is not None and sorted(x_ for x_ in (("m->" + row["nr"]) if not row["nr"].isdigit() else row["nr"], row["nc"])
+                                                         if x_ != "1") == _factors(elem_size.get(path, "?"))
+                    if not okk:
+                        problems.append(f"special branch for {label} does not copy exactly its size in elements of the field's type "
+                                        f"from the source to the destination (loop copies `{cir.text(lhs)} = {cir.text(rhs)}` for {j} < {N})")
+        if fname == "mj_extractState":
+            pp = cir.params(fn)
+            srcp = [p_.get("n") for p_ in pp if (p_.get("t") or "") == "const mjtNum *"]
+            dstp = [p_.get("n") for p_ in pp if (p_.get("t") or "") == "mjtNum *"]
+            if len(srcp) != 1 or len(dstp) != 1 or len(sigs) != 2:
+                raise AnalysisError("mj_extractState: parameters not identified")
+            szv = {n_ for n_, c_ in decl_call(None, ("mj_stateElemSize",)).items() if cir.text(cir.args(c_)[1]) == E}
+            adv = {}
+            for x in cir.walk(lbody):
+                if x.get("k") == "CompoundAssignOperator" and x.get("op") == "+=" and cir.text(cir.kids(x)[0]) in (srcp[0], dstp[0]):
+                    adv.setdefault(cir.text(cir.kids(x)[0]), []).append((x, cir.text(cir.kids(x)[1]), G(x)))
+            cps = [x for x in cir.calls(lbody, "mju_copy")]
+            okk = len(adv.get(srcp[0], [])) == 1 and len(adv.get(dstp[0], [])) == 1 and len(cps) == 1
+            if okk:
+                sx, sn, sg = adv[srcp[0]][0]
+                dx, dn, dg = adv[dstp[0]][0]
+                cg = G(cps[0])
+                src_sig = [s_ for s_ in sigs if has_sig(sg, s_)]
+                dst_sig = [s_ for s_ in sigs if has_sig(dg, s_) and s_ not in src_sig]
+                okk = sn in szv and dn in szv and len(src_sig) == 1 and len(dst_sig) == 1 and \
+                    has_sig(dg, src_sig[0]) and has_sig(cg, src_sig[0]) and has_sig(cg, dst_sig[0]) and \
+                    [cir.text(y) for y in cir.args(cps[0])] == [dstp[0], srcp[0], dn] and \
+                    order[id(cps[0])] < order[id(sx)] and order[id(cps[0])] < order[id(dx)]
+                # the subset test names which signature is the source
                 if okk:
-                    # which int parameter guards the destination advance
-                    gs = {g_: v for g_, v in adv.items()}
-                    dst_guard = [g_ for g_, v in gs.items() if v == [f"{dstp[0]} += {SZ}"]]
-                    src_guard = [g_ for g_, v in gs.items() if v == [f"{srcp[0]} += {SZ}"]]
-                    okk = len(dst_guard) == 1 and len(src_guard) == 1 and dst_guard != src_guard
-                    if okk:
-                        # the destination guard must be nested inside the source guard
-                        outer = [x for x in cir.walk(body) if x.get("k") == "IfStmt" and cir.text(cir.kids(x)[0]) == src_guard[0]]
-                        okk = bool(outer) and any(cir.text(cir.kids(y)[0]) == dst_guard[0] for y in cir.walk(cir.kids(outer[0])[1])
-                                                  if y.get("k") == "IfStmt")
-                        cps = [x for x in cir.calls(body, "mju_copy")]
-                        okk = okk and len(cps) == 1 and [cir.text(y) for y in cir.args(cps[0])] == [dstp[0], srcp[0], SZ]
-                if not okk:
-                    problems.append(f"cursor advances are {adv}; expected the source cursor to advance by the element size on every "
-                                    f"selected source element and the destination cursor only on destination elements")
-            if fname == "mj_stateSize":
-                adv = [cir.text(x) for x in cir.walk(body) if x.get("k") == "CompoundAssignOperator"]
-                if len(adv) != 1 or not re.fullmatch(r"\w+ \+= mj_stateElemSize\(\w+, " + re.escape(E) + r"\)", adv[0]):
-                    problems.append(f"size accumulation is {adv}")
+                    pre = [t for t, _p in [(cir.text(c_), p_) for c_, p_ in (norm.guards(body, lp) or [])]]
+                    okk = True
+            if not okk:
+                problems.append(f"cursor advances are { {k_: [(n_, [t for t, p_ in g_ if p_]) for _x, n_, g_ in v] for k_, v in adv.items()} }; "
+                                f"expected the source cursor to advance by the element size on every "
+                                f"selected source element and the destination cursor only on destination elements")
+        if fname == "mj_stateSize":
+            rets = [cir.text(cir.kids(x)[0]) for x in cir.walk(body) if x.get("k") == "ReturnStmt" and cir.kids(x)
+                    and norm.guards(body, x) is not None and cir.text(cir.kids(x)[0]) not in ("0",)]
+            acc = rets[-1] if rets else None
+            szv = {n_ for n_, c_ in decl_call(None, ("mj_stateElemSize",)).items() if cir.text(cir.args(c_)[1]) == E}
+            adv = [cir.text(cir.kids(x)[1]) for x in cir.walk(lbody) if x.get("k") == "CompoundAssignOperator" and x.get("op") == "+="
+                   and cir.text(cir.kids(x)[0]) == acc]
+            if len(adv) != 1 or not (adv[0] in szv or re.fullmatch(r"mj_stateElemSize\(\w+, " + re.escape(E) + r"\)", adv[0])):
+                problems.append(f"size accumulation is {adv}")
         if problems:
             res.bad("R-STATE-LOOP", fname, FILE, fn.get("line"), "; ".join(problems))
         else:
-            res.ok("R-STATE-LOOP", fname, {"file": FILE, "line": fn.get("line")})
-
+            res.ok("R-STATE-LOOP", fname, {"file": FILE, "line": fn.get("line"), "special_elements": specials})
 
 
 def reset_cover(res):
@@ -484,14 +700,17 @@ def keyframes(res):
     for fname, fn0 in fns.items():
         if fn0 is None:
             raise AnalysisError(f"anchor {fname} not found")
-        # the key arrays may be handled by the function itself or by a same-TU callee it hands the key index to
-        fn = fn0
+        # canonical view: same-TU helpers the key index is handed to are analysed in place, hoisted sizes (`int na = m->na`)
+        # are substituted
+        from .. import norm
         unit_ = uio if fname == "mj_resetDataKeyframe" else usup
-        if not any(n.get("k") == "MemberExpr" and (n.get("n") or "").startswith("key_") for n in cir.walk(fn0)):
+        fn = norm.canon(unit_, fname, propagate=True, nested=False)
+        if not any(n.get("k") == "MemberExpr" and (n.get("n") or "").startswith("key_") for n in cir.walk(fn)):
+            # handled by a non-static same-TU callee
             for c in cir.calls(fn0):
                 cal = unit_.funcs.get(cir.callee(c))
                 if cal is not None and any(n.get("k") == "MemberExpr" and (n.get("n") or "").startswith("key_") for n in cir.walk(cal)):
-                    fn = cal
+                    fn = norm.canon(unit_, cir.callee(c), propagate=True, nested=False)
                     break
         file = fn.get("file") or "?"
         used = {}
@@ -502,22 +721,26 @@ def keyframes(res):
             # the loaded keyframe values must be the last word: nothing later in that function may write the same mjData
             # field again (e.g. default initialisation of mocap poses placed after the keyframe load)
             loads = {}
+            lline = {}
+            posn = {id(n): i for i, n in enumerate(cir.walk(fn))}
             for c in cir.calls(fn):
                 at = cir.args(c)
                 if len(at) >= 2 and "m->key_" in cir.text(at[1]):
                     rf = _mr.root_field(at[0])
                     if rf and rf[0] == "mjData":
-                        loads[rf[1]] = c.get("line")
+                        loads[rf[1]] = posn[id(c)]
+                        lline[rf[1]] = c.get("line")
             for n in cir.walk(fn):
                 if n.get("k") == "BinaryOperator" and n.get("op") == "=" and "m->key_" in cir.text(cir.kids(n)[1]):
                     rf = _mr.root_field(cir.kids(n)[0])
                     if rf and rf[0] == "mjData":
-                        loads[rf[1]] = n.get("line")
+                        loads[rf[1]] = posn[id(n)]
+                        lline[rf[1]] = n.get("line")
             for e in _mr.events(fn, {"mjData"}):
-                if e["field"] in loads and e["kind"] in ("assign", "elem", "pass", "addr") and e["line"] > loads[e["field"]]:
+                if e["field"] in loads and e["kind"] in ("assign", "elem", "pass", "addr") and e["pos"] > loads[e["field"]]:
                     res.bad("R-KEYFRAME", f"{fname}:{e['field']}:overwritten", file, e["line"],
                             f"d->{e['field']} is written again (line {e['line']}) after the keyframe value was loaded into it (line "
-                            f"{loads[e['field']]}): mj_resetDataKeyframe would not yield the keyframe's value")
+                            f"{lline[e['field']]}): mj_resetDataKeyframe would not yield the keyframe's value")
             for f_ in loads:
                 res.ok("R-KEYFRAME", f"{fname}:{f_}:last-write", None)
         for kf in keys:
